@@ -50,10 +50,14 @@ def ppci_run(case, suffix):
     from ppci.common import CompilerError
     from vf.sem.irinterp import Interp, Undefined, Horizon, Unsupported
     src = case["src"].replace("@", suffix)
+    from vf.core import cpu_limit, CpuTimeout
     try:
-        m = c_to_ir(io.StringIO(src), get_arch("x86_64"), COptions())
+        with cpu_limit(10):
+            m = c_to_ir(io.StringIO(src), get_arch("x86_64"), COptions())
     except CompilerError as e:
         return ("rejected", str(e)[:100])
+    except CpuTimeout:
+        return ("internal", TimeoutError("front end did not finish within 10 CPU-seconds"))
     except Exception as e:  # noqa
         return ("internal", e)
     fname = case["fname"].replace("@", suffix)
